@@ -30,6 +30,7 @@ type Dev struct {
 	IOS     bool
 	Entries []*Entry
 	cur     *Entry // current sub mode, nil = global configuration mode
+	nested  *Entry // ASA: "webvpn" was entered inside the attributes mode of this group-policy / username
 	left    bool   // configuration mode was left by a top-level exit/end
 	// Steps counts executed commands (for diagnostics).
 	Steps int
@@ -42,6 +43,9 @@ func (d *Dev) Clone() *Dev {
 		n.Entries = append(n.Entries, c)
 		if d.cur == e {
 			n.cur = c
+		}
+		if d.nested == e {
+			n.nested = c
 		}
 	}
 	return n
@@ -627,7 +631,10 @@ func (d *Dev) Exec(line string) error {
 		return fmt.Errorf("command %q sent after configuration mode was left", line)
 	}
 	if line == "exit" || line == "end" {
-		if d.cur != nil && line == "exit" {
+		if d.cur != nil && line == "exit" && d.nested == d.cur {
+			// leaves the nested webvpn mode only
+			d.nested = nil
+		} else if d.cur != nil && line == "exit" {
 			d.cur = nil
 		} else if line == "end" {
 			d.cur = nil
@@ -644,10 +651,24 @@ func (d *Dev) Exec(line string) error {
 		neg = true
 		body = w[1:]
 	}
+	if d.cur != nil && d.nested != d.cur {
+		d.nested = nil
+	}
 	if d.cur != nil {
 		m := d.modeOf(d.cur)
 		if m != nil {
 			kw := body[0]
+			if !d.IOS && d.nested == d.cur && (kw == "certificate-group-map" || kw == "enable") {
+				// the webvpn mode of a group-policy / username is not the
+				// global webvpn mode
+				return fmt.Errorf("invalid input %q in the webvpn mode of %q", line, d.cur.Line)
+			}
+			if !d.IOS && kw == "webvpn" && !neg && len(body) == 1 {
+				pw := fields(d.cur.Line)
+				if len(pw) == 3 && pw[2] == "attributes" && (pw[0] == "group-policy" || pw[0] == "username") {
+					d.nested = d.cur
+				}
+			}
 			isNum := false
 			if _, err := strconv.Atoi(kw); err == nil {
 				isNum = true
